@@ -620,6 +620,8 @@ class Run:
         if opts.get('parent') == 'self':
             if cur_event is not None:
                 kw['event_parent_id'] = cur_event.event_id  # explicit parent id that happens to be the event being handled
+        elif opts.get('parent') == 'none':
+            kw['event_parent_id'] = None  # the optional field passed through explicitly, holding nothing
         elif opts.get('parent'):
             kw['event_parent_id'] = opts['parent']
         if opts.get('rtype'):
@@ -1219,7 +1221,8 @@ class Run:
                     self.rec('on', by=by, h=op[1], bus=h['bus'])
                 elif k == 'idle':
                     b = self.getbus(op[1])
-                    self.rec('idle_call', by=by, bus=op[1], timeout=op[2], call=sq)
+                    self.rec('idle_call', by=by, bus=op[1], timeout=op[2], call=sq, q0=b.event_queue.qsize() if b.event_queue else 0, pend0=len(b.events_pending), started0=len(b.events_started),
+                             unfinished0=getattr(b.event_queue, '_unfinished_tasks', None), running0=b._is_running)
                     await b.wait_until_idle(timeout=op[2])
                     self.rec('idle_ret', by=by, bus=op[1], call=sq, timeout=op[2], q=b.event_queue.qsize() if b.event_queue else 0,
                              pend=len(b.events_pending), started=len(b.events_started), running=b._is_running)
